@@ -89,7 +89,8 @@ class COSPricer:
         :param x: space parameter
         :return: the value of the cumulative function in (t,x)
         """
-        return 1 - self.digital(strikes=x, time=time)
+        # the digital price is discounted: P(S_t > x) = digital / df
+        return 1 - self.digital(strikes=x, time=time) / self.model.df(t=time)
 
     @staticmethod
     def psi(ks: NDArray[int], a: float, b: float, c: float, d: float):
